@@ -636,6 +636,15 @@ class Interp:
                     if any(isinstance(dc, ast.Name) and dc.id == "property" for dc in m.node.decorator_list):
                         return self.call_f(m, [base])
                     return _Bound(base, m)
+                if e.attr == "_replace":
+                    # NamedTuple._replace on a record node: a copy with the given fields changed
+                    def _repl(_b=base, **kw):
+                        unknown = [k for k in kw if k not in _b.f]
+                        if unknown:
+                            raise Raised(f"ValueError: got unexpected field names {unknown}")
+                        return Node(_b.cls, **{**_b.f, **kw})
+
+                    return _PyCall(_repl)
                 raise AnalysisError(f"absint: {base.cls} has no attribute {e.attr}")
             if isinstance(base, (int, float, complex)) and not isinstance(base, bool) and e.attr in ("real", "imag"):
                 return getattr(base, e.attr)
